@@ -323,11 +323,12 @@ def corr_judge(driver, case_file, timeout=1800, dargs=()):
         body = m.split(" M", 1)[1]
         if " | J " in body:
             model, j = body.rsplit(" | J ", 1)
-            ok = j.strip() == "1"
+            ok = j.split()[0] == "1"
         else:
             model, ok = body, True
         res.append({"line": l, "id": l.split(":", 1)[0].split()[0], "impl": impl,
-                    "model": " ".join(model.split()), "spec_ok": ok})
+                    "model": " ".join(model.split()), "spec_ok": ok,
+                    "jextra": (body.rsplit(" | J ", 1)[1].split()[1:] if " | J " in body else [])})
     return res
 
 
